@@ -1,5 +1,6 @@
 """C16 - primitive decoders invert the standard encodings and consume exact lengths."""
 from symx.api import H
+from harness import c07 as C7
 from spec import enc
 
 PROPERTY = 'C16'
@@ -326,6 +327,8 @@ HARNESSES = [
       expect=('ok',),
       desc='every integer type of ELFStructs (per class and byte order: Elf_byte .. Elf_sxword, width and signedness per the gABI data representation) and of DWARFStructs '
            '(per format, address size and byte order) on symbolic bytes: value and exact consumption'),
+    H('h16_6_counted_location_description', C7.h_v5, lambda tier: [c for c in C7._v5_instances(tier) if any(len(k) > 2 for k in c['kinds'])], expect=('ok',),
+      desc='the ULEB128-counted location description of DWARF 5 location-list entries with 2- and 3-byte (padded) lengths (harness shared with C07)'),
     H('h16_4_cstring_stream', h_cstring_stream,
       lambda tier: [dict(n=n, start=0) for n in _cstr_lens(tier)] + [dict(n=n, start=s, use_pos=u) for n in (70, 130) for s in (1, 5, 64) for u in (True, False)],
       expect=('ok', 'no-terminator'),
